@@ -3,10 +3,10 @@ CHECK = {
     "parts": [
         {"pkg": "handshake", "files": ["handshake/hsgen_test.go", "handshake/c06_test.go"], "run": "^TestC06",
          "quick": {"scale": 1, "shards": 1, "timeout": 300},
-         "thorough": {"scale": 12, "shards": 8, "timeout": 900}},
+         "thorough": {"scale": 24, "shards": 8, "timeout": 900}},
         {"pkg": ".", "files": ["root/c06_root_test.go"], "run": "^TestC06",
          "quick": {"scale": 1, "shards": 1, "timeout": 300},
-         "thorough": {"scale": 10, "shards": 4, "timeout": 900}},
+         "thorough": {"scale": 20, "shards": 4, "timeout": 900}},
     ],
     "rule": "rapid draws of (curve X25519/P-256, cipher ChaChaPoly/AES-GCM, initiator and responder certificate-version "
             "configuration v1 / v2 / v1+v2 starting at either, index allocators over the full non-zero uint32 range incl. "
